@@ -12,21 +12,25 @@ namespace Evalexpr.Rs
 @[simp] theorem Flow.pure_eq (a : α) : (pure a : Flow ρ α) = .val a := rfl
 @[simp] theorem Flow.val_bind (a : α) (f : α → Flow ρ β) : (Flow.val a >>= f) = f a := rfl
 @[simp] theorem Flow.ret_bind (r : ρ) (f : α → Flow ρ β) : ((Flow.ret r : Flow ρ α) >>= f) = .ret r := rfl
+@[simp] theorem Flow.bind_assoc (x : Flow ρ α) (f : α → Flow ρ β) (g : β → Flow ρ γ) :
+    ((x >>= f) >>= g) = (x >>= fun a => f a >>= g) := by cases x <;> rfl
 @[simp] theorem Flow.run_val (a : ρ) : Flow.run (.val a : Flow ρ ρ) = a := rfl
 @[simp] theorem Flow.run_ret (a : ρ) : Flow.run (.ret a : Flow ρ ρ) = a := rfl
 
-@[simp] theorem Flow.try_ok (a : α) : (Rs.try (.ok a) : Flow (Res β) α) = .val a := rfl
-@[simp] theorem Flow.try_error (e : Err) : (Rs.try (.error e : Res α) : Flow (Res β) α) = .ret (.error e) := rfl
+@[simp] theorem ofErr_res (e : Err) : (ErrRet.ofErr e : Res β) = .error e := rfl
+@[simp] theorem ofErr_loopOut [ErrRet ρ] (e : Err) : (ErrRet.ofErr e : LoopOut ρ σ) = .ret (ErrRet.ofErr e) := rfl
+@[simp] theorem Flow.try_ok [ErrRet ρ] (a : α) : (Rs.try (.ok a) : Flow ρ α) = .val a := rfl
+@[simp] theorem Flow.try_error [ErrRet ρ] (e : Err) : (Rs.try (.error e : Res α) : Flow ρ α) = .ret (ErrRet.ofErr e) := rfl
 @[simp] theorem Flow.ret_def (r : ρ) : (Rs.ret r : Flow ρ α) = .ret r := rfl
-@[simp] theorem Flow.panic_def (site : Str) : (Rs.panic site : Flow (Res β) α) = .ret (.error (.panic site)) := rfl
-@[simp] theorem Flow.index_zero (site : Str) (a : α) (l : List α) : (index site (a :: l) 0 : Flow (Res β) α) = .val a := rfl
-@[simp] theorem Flow.index_succ (site : Str) (a : α) (l : List α) (n : Nat) :
-    (index site (a :: l) (n + 1) : Flow (Res β) α) = index site l n := by
+@[simp] theorem Flow.panic_def [ErrRet ρ] (site : Str) : (Rs.panic site : Flow ρ α) = .ret (ErrRet.ofErr (.panic site)) := rfl
+@[simp] theorem Flow.index_zero [ErrRet ρ] (site : Str) (a : α) (l : List α) : (index site (a :: l) 0 : Flow ρ α) = .val a := rfl
+@[simp] theorem Flow.index_succ [ErrRet ρ] (site : Str) (a : α) (l : List α) (n : Nat) :
+    (index site (a :: l) (n + 1) : Flow ρ α) = index site l n := by
   simp [index]
-@[simp] theorem Flow.index_nil (site : Str) (n : Nat) :
-    (index site ([] : List α) n : Flow (Res β) α) = .ret (.error (.panic site)) := rfl
-@[simp] theorem Flow.swap_remove_def (site : Str) (l : List α) (n : Nat) :
-    (swap_remove site l n : Flow (Res β) α) = index site l n := rfl
+@[simp] theorem Flow.index_nil [ErrRet ρ] (site : Str) (n : Nat) :
+    (index site ([] : List α) n : Flow ρ α) = .ret (ErrRet.ofErr (.panic site)) := rfl
+@[simp] theorem Flow.swap_remove_def [ErrRet ρ] (site : Str) (l : List α) (n : Nat) :
+    (swap_remove site l n : Flow ρ α) = index site l n := rfl
 
 /-! ### `M`: everything is stated for `M.run (x >>= f) s` and `M.run x s` -/
 
@@ -191,7 +195,67 @@ theorem Flow.run_loop_bind (site : Str) (n : Nat) (s : σ) (f : σ → Flow (Res
 @[simp] theorem iter_next_nil : iter_next ([] : List α) = (none, []) := rfl
 @[simp] theorem iter_next_cons (a : α) (l : List α) : iter_next (a :: l) = (some a, l) := rfl
 @[simp] theorem iter_def (l : List α) : iter l = l := rfl
-@[simp] theorem Flow.unwrap_some (site : Str) (a : α) : (unwrap site (some a) : Flow (Res β) α) = .val a := rfl
+@[simp] theorem Flow.unwrap_some [ErrRet ρ] (site : Str) (a : α) : (unwrap site (some a) : Flow ρ α) = .val a := rfl
+
+/-! ### loops with `break` -/
+
+theorem Flow.run_loopB_succ_bind [ErrRet ρ] (site : Str) (n : Nat) (s : σ) (f : σ → LoopOut ρ σ) (k : σ → Flow ρ ρ) :
+    Flow.run (loopB site (n + 1) s f >>= k) =
+      match f s with
+      | .cont s' => Flow.run (loopB site n s' f >>= k)
+      | .brk s' => Flow.run (k s')
+      | .ret r => r := by
+  rw [loopB]
+  cases f s <;> rfl
+theorem Flow.run_loopB_zero_bind [ErrRet ρ] (site : Str) (s : σ) (f : σ → LoopOut ρ σ) (k : σ → Flow ρ ρ) :
+    Flow.run (loopB site 0 s f >>= k) = ErrRet.ofErr (.panic site) := rfl
+
+/-- a `loopB` loop computes a recursively specified value `spec`: every run of the body from a state `s` (with measure
+below `bound`, e.g. the fuel the body passes to the functions it calls) either continues in a state of smaller measure
+and the same `spec`, or breaks / returns with what `spec s` says. Then enough fuel (`measure s < fuel`) gives `spec s`. -/
+theorem Flow.run_loopB_spec {σ ρ : Type} [ErrRet ρ] (site : Str) (f : σ → LoopOut ρ σ) (k : σ → Flow ρ ρ)
+    (measure : σ → Nat) (spec : σ → ρ) (bound : Nat)
+    (hstep : ∀ s, measure s < bound → match f s with
+      | .cont s' => measure s' < measure s ∧ spec s = spec s'
+      | .brk s' => spec s = Flow.run (k s')
+      | .ret r => spec s = r) :
+    ∀ (fuel : Nat) (s : σ), measure s < fuel → measure s < bound →
+      Flow.run (loopB site fuel s f >>= k) = spec s := by
+  intro fuel
+  induction fuel with
+  | zero => intro s h; cases h
+  | succ n ih =>
+    intro s h hb
+    rw [Flow.run_loopB_succ_bind]
+    have hs := hstep s hb
+    cases hfs : f s with
+    | cont s' =>
+      rw [hfs] at hs
+      simp only
+      rw [ih s' (by omega) (by omega)]
+      exact hs.2.symm
+    | brk s' => rw [hfs] at hs; exact hs.symm
+    | ret r => rw [hfs] at hs; exact hs.symm
+
+@[simp] theorem Flow.slice_from_def [ErrRet ρ] (site : Str) (v : List α) (a : Nat) :
+    (slice_from site v a : Flow ρ (List α)) =
+      if a ≤ v.length then .val (v.drop a) else .ret (ErrRet.ofErr (.panic site)) := rfl
+@[simp] theorem extend_def (v : List α) (o : Option α) : extend v o = v ++ o.toList := rfl
+@[simp] theorem peek_nil : peek ([] : List α) = none := rfl
+@[simp] theorem peek_cons (a : α) (l : List α) : peek (a :: l) = some a := rfl
+@[simp] theorem chars_def (s : Str) : chars s = s := rfl
+@[simp] theorem eq_char (a b : Char) : eq a b = (a == b) := rfl
+@[simp] theorem to_string_char (c : Char) : to_string c = [c] := rfl
+@[simp] theorem to_string_str (s : Str) : to_string s = s := rfl
+@[simp] theorem push_str_def (s t : Str) : push_str s t = s ++ t := rfl
+@[simp] theorem attach_ok (a : α) (st : σ) : attach (.ok a) st = .ok (a, st) := rfl
+@[simp] theorem attach_error (e : Err) (st : σ) : attach (.error e : Res α) st = .error e := rfl
+/-- the result vector of the lexer, seen from its end (the Model accumulates in reverse) -/
+@[simp] theorem last_reverse (acc : List α) : last acc.reverse = acc.head? := by
+  cases acc <;> simp [last]
+@[simp] theorem push_reverse (acc : List α) (x : α) : push acc.reverse x = (x :: acc).reverse := by simp [push]
+@[simp] theorem set_last_reverse (a : α) (acc : List α) (x : α) : set_last (a :: acc).reverse x = (x :: acc).reverse := by
+  simp [set_last]
 
 /-! ### the pure vocabulary -/
 
